@@ -132,11 +132,13 @@ WUncount(w) ==
   /\ UNCHANGED <<workers, queue, apc, nextJob, mayFinish, served, doneJobs>>
 
 (* ---------------- drop: Terminate behind every queued job, then join ---------------- *)
-DropSend ==
-  /\ apc = "idle" /\ nextJob > NJobs
+DropSendBody ==
+  /\ apc = "idle"
   /\ queue' = queue \o [i \in 1..workers |-> 0]
   /\ apc' = "dropping"
   /\ UNCHANGED <<workers, ctr, wst, wjob, nextJob, mayFinish, served, doneJobs>>
+
+DropSend == nextJob > NJobs /\ DropSendBody
 
 DropJoined ==
   /\ apc = "dropping"
@@ -192,7 +194,7 @@ EventuallyServed == \A j \in Jobs : (j \in QueuedJobs) ~> (j \in served \/ Satur
 CounterNonNegative == ctr >= 0
 
 \* drop waits for every accepted job
-DropAfterDrain == (apc = "dropped") => doneJobs = Jobs
+DropAfterDrain == (apc = "dropped") => doneJobs = 1..(nextJob - 1)
 
 TypeOK ==
   /\ workers \in Initial..MaxWorkers
